@@ -3,3 +3,13 @@ def try_parse_int(value):
         return int(value) if value is not None else None
     except ValueError:
         return None
+
+
+def is_decimal_integer(value):
+    """
+    Whether the value is written with ASCII decimal digits only.
+
+    `str.isdigit` alone also accepts digits of other scripts and superscripts, which are not
+    valid integers in the protocol files (or in the generated Python code).
+    """
+    return value is not None and value.isascii() and value.isdigit()
